@@ -9,7 +9,7 @@ from ..core import cstr, clist, cbool, copt
 
 ID = "C07"
 THEOREM_FILE = "Properties/C07.v"
-IMPORTS = "From Annet Require Import Base.Str Model.Pattern Spec.P_C07."
+IMPORTS = "From Annet Require Import Base.Str Model.Pattern Model.PatternX Spec.P_C07 Spec.P_C07X."
 TY = "c07_in * c07_out"
 META = {
     "text": "Proof: for every plain pattern (literal words, `*`, `*/re/`, trailing `~`) and every row, the word-level "
@@ -17,14 +17,25 @@ META = {
             "holds (one word per token at word boundaries, key = bound words, `~` binds the rest), the key has one entry "
             "per placeholder, the derivative matcher of one-word regexps decides their language, and "
             "_make_reverse(...).format(*key) is the negation word followed by the rule's words with the key substituted "
-            "(prefix stripped when already present; negating twice gives the rule back). Correspondence: Coq evaluates "
+            "(prefix stripped when already present; negating twice gives the rule back). The same theorems are proved for "
+            "the extended language in which a rule word may be a one-word regular expression that binds nothing "
+            "(`(ftp|FTP)`, `(?:permit|deny)`, `vlans?`, `[11|12]`, `~/re/`): match iff the declarative relation, key = "
+            "the words bound by the placeholders only, key length = number of placeholders (+ the exact excess caused "
+            "by the code's un-neutralised groups in rows without `*`), removal command keeps a regex word's source text "
+            "and drops `~/re/`; the plain language is proved to be the sub-language (same parser, matcher, spec), and "
+            "the two places where compile_row_regexp deviates (plain groups stay capturing in a row without `*`; no "
+            "trailing word boundary in a row with `~/re/`) are modelled faithfully, excluded by an explicit guard and "
+            "shown necessary by refutation theorems (known findings). Correspondence: Coq evaluates "
             "model==implementation and the declarative predicate on the real compile_row_regexp/.groups()/_make_reverse/"
-            ".format outputs, exhaustively over small patterns x rows, and on every shipped rule line the plain language "
-            "covers (through the regexps stored in the really compiled patching/ordering/deploy rulebooks, the ACL and "
-            "the implicit compilers), with synthesised rows and near-miss mutants.",
+            ".format outputs, exhaustively over small patterns x rows (plain and with regex words), and on every shipped "
+            "rule line the extended language covers (through the regexps stored in the really compiled patching/"
+            "ordering/deploy rulebooks, the ACL and the implicit compilers), with rows synthesised from the model (every "
+            "enumerated word of every regex word, proved to be in its language) and near-miss mutants.",
     "technique": "Coq induction on tokens/words/characters, Brzozowski derivatives; vm_compute differential check",
-    "note": "Shipped rule lines that are regex source outside the plain language (e.g. `vlan */[^\\d].*/`, "
-            "`(?:ip|ipv6) route`) are listed as unmodelled in the evidence and excluded from the claim (fail closed).",
+    "note": "Shipped rule lines still outside the extended language (`.`/`.*` that may cross a blank, `$`, a placeholder "
+            "glued to a literal `*/re/-suffix`, the `...`/`name:~` forms, groups spanning two words, `*` inside a word) are "
+            "listed as unmodelled in the evidence and excluded from the claim (fail closed). C07X_match_iff / C07X_holds "
+            "carry the guard quirk_free; C07X_bare_group_refuted and C07X_no_boundary_refuted show it is needed.",
 }
 
 FKEY = ["K1", "K2", "K3", "K4", "K5", "K6"]
@@ -108,6 +119,124 @@ def gen_reverse(ctx):
             cases.append({"kind": "raw", "rule": " ".join(t), "prefix": "no", "ic": False, "fkey": FKEY[:3],
                           "rows": ("rows_A2", 3), "src": "inline-flag"})
     return cases
+
+
+
+# one-word regular expressions that bind nothing: bare words (LitRe) and `~/re/` (TildeRe)
+EXT_TOKS = ["(ab|no)", "(?:ab|abc)", "abc?", "[an][bo]", "~/(ab|no)/", "~/ab?/"]
+
+
+def ext_patterns(base, ext, max_tok):
+    """patterns of 1..max_tok tokens over base+ext that contain at least one ext token"""
+    toks = list(base) + list(ext)
+    out = []
+    for n in range(1, max_tok + 1):
+        for combo in itertools.product(toks, repeat=n):
+            if any(t in ext for t in combo):
+                out.append(" ".join(combo))
+        for combo in itertools.product(toks, repeat=n - 1):
+            if any(t in ext for t in combo):
+                out.append(" ".join(combo + ("~",)))
+    return out
+
+
+def gen_exhaustive_ext(ctx, accepted):
+    """family (i-ext): patterns <= 3 tokens with at least one regex word x rows <= 4 words; `accepted`
+    decides (in Coq) which rule texts the extended language covers"""
+    pats = [p for p in ext_patterns(["no", "ab", "*", "*/[ab]+/"], EXT_TOKS, 3) if accepted(p, "no")]
+    if ctx.thorough:
+        chosen = pats
+    else:
+        small = [p for p in pats if len(p.split()) <= 2]
+        big = [p for p in pats if len(p.split()) == 3]
+        off = ctx.seed % 6
+        chosen = small + big[off::6]
+    cases = []
+    for p in chosen:
+        fams = ((("A1", 4), False), (("A2", 3), True)) if not ctx.thorough else ((("A1", 4), False), (("A2", 4), True))
+        for (an, mw), ic in fams:
+            cases.append({"kind": "raw", "rule": p, "prefix": "no", "ic": ic, "fkey": FKEY[:4],
+                          "rows": ("rows_" + an, mw), "src": "exhaustive-ext"})
+    scope = (f"{len(chosen)} of {len(pats)} accepted patterns <= 3 tokens over {{no, ab, *, */[ab]+/, trailing ~}} + "
+             f"{EXT_TOKS} with at least one regex word x all rows <= 4 words (quick: <= 3 words for the ignore_case half)")
+    return cases, scope
+
+
+def gen_reverse_ext(ctx, accepted):
+    """family (i'-ext): reverse templates of rules with regex words, the negation word in every position"""
+    cases = []
+    some_rows = ["ab", "ab ab", "no ab", "undo ab ab", "ab abc ab", "delete no ab ab", "no no", "undo abc no ab"]
+    for prefix in ["undo", "no", "delete"]:
+        for p in ext_patterns([prefix, "ab", "*"], ["(ab|no)", "(?:ab|abc)", "~/ab?/"], 3):
+            if not accepted(p, prefix):
+                continue
+            if not ctx.thorough and len(p.split()) == 3 and (hash_small(p + prefix) % 3):
+                continue
+            for klen in ((0, 1, 4) if ctx.thorough else (1, 4)):
+                cases.append({"kind": "raw", "rule": p, "prefix": prefix, "ic": False, "fkey": FKEY[:klen],
+                              "rows": some_rows, "src": "reverse-ext"})
+    return cases
+
+
+# --- reading Coq values back --------------------------------------------------------------
+
+_CTOK = re.compile(r'\s*("(?:[^"]|"")*"|\[|\]|\(|\)|;|,|Some|None|true|false|\d+)')
+
+
+def parse_coq(txt: str):
+    """Coq value printed by vm_compute -> Python: lists, tuples, strings, bool, nat, None / {"some": v}"""
+    toks, pos = [], 0
+    txt = txt.strip()
+    while pos < len(txt):
+        m = _CTOK.match(txt, pos)
+        if not m:
+            raise core.CheckFailure(f"cannot read Coq value at {txt[pos:pos + 60]!r}")
+        toks.append(m.group(1))
+        pos = m.end()
+
+    def val(i):
+        t = toks[i]
+        if t == "None":
+            return None, i + 1
+        if t == "Some":
+            v, i = val(i + 1)
+            return {"some": v}, i
+        if t in ("true", "false"):
+            return t == "true", i + 1
+        if t[0] == '"':
+            return t[1:-1].replace('""', '"'), i + 1
+        if t.isdigit():
+            return int(t), i + 1
+        if t == "[":
+            items, i = [], i + 1
+            if toks[i] == "]":
+                return items, i + 1
+            while True:
+                v, i = val(i)
+                items.append(v)
+                if toks[i] == ";":
+                    i += 1
+                elif toks[i] == "]":
+                    return items, i + 1
+                else:
+                    raise core.CheckFailure("cannot read Coq list")
+        if t == "(":
+            items, i = [], i + 1
+            while True:
+                v, i = val(i)
+                items.append(v)
+                if toks[i] == ",":
+                    i += 1
+                elif toks[i] == ")":
+                    return (items[0] if len(items) == 1 else tuple(items)), i + 1
+                else:
+                    raise core.CheckFailure("cannot read Coq tuple")
+        raise core.CheckFailure(f"cannot read Coq value token {t!r}")
+
+    v, i = val(0)
+    if i != len(toks):
+        raise core.CheckFailure("trailing text after Coq value")
+    return v
 
 
 def hash_small(s: str) -> int:
@@ -203,20 +332,36 @@ def swapcase_one(w: str, rng) -> str:
     return w[:i] + w[i].swapcase() + w[i + 1:]
 
 
-def synth_rows(rule: str, rng, extra_first: list[str] = ()) -> list[str]:
-    """rows built from the rule's tokens: matching candidates and near-miss mutants"""
+def is_regex_tok(t: str) -> bool:
+    return t not in ("*", "~") and (t.startswith(("*/", "~/")) or any(c in t for c in "()[]?+|\\"))
+
+
+def synth_rows(rule: str, rng, extra_first: list[str] = (), samples: list[list[str]] | None = None) -> list[str]:
+    """rows built from the rule's tokens: matching candidates and near-miss mutants.  `samples`: per token,
+    words of its language enumerated by the Coq model from the regex AST (Model/PatternX.xtok_samples)"""
     toks = rule.replace("(?i)", "").split(" ")
+    if samples is not None and len(samples) != len(toks):
+        samples = None
     fill = ["x1", "10", "Eth0/1", "a-b", "foo", "VRF_X", "10.0.0.1", "abc", "2001:db8::1", "ab"]
+
+    def words_of(i, t):
+        if samples is not None and samples[i]:
+            return samples[i]
+        if t.startswith("*/") and t.endswith("/") and len(t) > 3:
+            w = sample_word(t[2:-1], rng)
+            return [w] if w else []
+        return []
+
     bases = []
     for _ in range(3):
         ws = []
-        for t in toks:
+        for i, t in enumerate(toks):
             if t == "*":
                 ws.append(rng.choice(fill))
             elif t == "~":
                 ws.extend(rng.sample(fill, rng.randint(1, 3)))
-            elif t.startswith("*/") and t.endswith("/") and len(t) > 3:
-                ws.append(sample_word(t[2:-1], rng) or rng.choice(fill))
+            elif is_regex_tok(t):
+                ws.append(rng.choice(words_of(i, t) or fill))
             else:
                 ws.append(t)
         bases.append(ws)
@@ -231,6 +376,21 @@ def synth_rows(rule: str, rng, extra_first: list[str] = ()) -> list[str]:
         add(ws)
     ws = bases[0]
     n = len(ws)
+    # every enumerated word of every regex token in turn, and near misses of it
+    for i, t in enumerate(toks):
+        if t in ("*", "~") or not is_regex_tok(t) or i >= n:
+            continue
+        cands = words_of(i, t)
+        for k, w in enumerate(cands[:10]):
+            add(ws[:i] + [w] + ws[i + 1:])
+            if k < 3:
+                add(ws[:i] + [w + "x"] + ws[i + 1:])
+                add(ws[:i] + [w[:-1]] + ws[i + 1:])
+                add(ws[:i] + [swapcase_one(w, rng)] + ws[i + 1:])
+        if len(cands) >= 2:
+            add(ws[:i] + [cands[0] + cands[1]] + ws[i + 1:])
+            add(ws[:i] + [cands[0], cands[1]] + ws[i + 1:])
+        add(ws[:i] + [t] + ws[i + 1:])                    # the regex source itself as a word
     add(ws + ["extra"])                                   # longer row (word boundary after the last token)
     add(ws + ["extra", "more"])
     add(ws[:-1])                                          # drop the last word
@@ -328,36 +488,78 @@ def run(ctx):
             if not (32 <= ord(ch) <= 126):
                 r["nonascii"] = True
     texts = sorted({r["row"] for r in shipped if not r.get("nonascii")})
-    flags = core.coq_eval(ID, IMPORTS, [
-        "map (fun s => match rule_pat s with Some _ => true | None => false end) " + clist(cstr(t) for t in texts[k:k + 200])
-        for k in range(0, len(texts), 200)], tag="modelled")
-    ok_flags = [b for chunk in flags for b in parse_bools(chunk)]
-    if len(ok_flags) != len(texts):
+    CHS = 150
+    cand = sorted({(p, "no") for p in ext_patterns(["no", "ab", "*", "*/[ab]+/"], EXT_TOKS, 3)}
+                  | {(p, pre) for pre in ("undo", "no", "delete")
+                     for p in ext_patterns([pre, "ab", "*"], ["(ab|no)", "(?:ab|abc)", "~/ab?/"], 3)})
+    e_samp = ["map xrule_samples " + clist(cstr(t) for t in texts[k:k + CHS]) for k in range(0, len(texts), CHS)]
+    e_plain = ["map (fun s => match rule_pat s with Some _ => true | None => false end) "
+               + clist(cstr(t) for t in texts[k:k + 300]) for k in range(0, len(texts), 300)]
+    # which generated rule texts does the extended language cover (with this negation word)?
+    e_acc = ["map (fun x => match xrule_pat (fst x) with Some p => lead_ok (reverse_xpat p (snd x)) | None => false end) "
+             + clist(f"({cstr(a)}, {cstr(b)})" for a, b in cand[k:k + 500]) for k in range(0, len(cand), 500)]
+    all_out = core.coq_eval(ID, IMPORTS, e_samp + e_plain + e_acc, tag="modelled")
+    if len(all_out) != len(e_samp) + len(e_plain) + len(e_acc):
+        raise core.CheckFailure("could not read back the language-membership answers from Coq")
+    samp_out = all_out[:len(e_samp)]
+    plain_out = all_out[len(e_samp):len(e_samp) + len(e_plain)]
+    acc_out = all_out[len(e_samp) + len(e_plain):]
+    samp = [v for chunk in samp_out for v in parse_coq(chunk)]
+    if len(samp) != len(texts):
+        raise core.CheckFailure("could not read back xrule_samples from Coq")
+    samples_of_text = {t: v["some"] for t, v in zip(texts, samp) if v is not None}
+    plain_flags = [b for chunk in plain_out for b in parse_bools(chunk)]
+    if len(plain_flags) != len(texts):
         raise core.CheckFailure("could not read back rule_pat flags from Coq")
-    modelled_text = {t for t, b in zip(texts, ok_flags) if b}
+    plain_text = {t for t, b in zip(texts, plain_flags) if b}
+    if not plain_text <= set(samples_of_text):
+        raise core.CheckFailure("a rule line of the plain language is not in the extended language: "
+                                f"{sorted(plain_text - set(samples_of_text))[:3]}")
+    modelled_text = set(samples_of_text)
     modelled = [r for r in shipped if r["row"] in modelled_text]
     unmodelled = [r for r in shipped if r["row"] not in modelled_text]
+    acc_flags = [b for chunk in acc_out for b in parse_bools(chunk)]
+    if len(acc_flags) != len(cand):
+        raise core.CheckFailure("could not read back acceptance flags from Coq")
+    acc_set = {c for c, b in zip(cand, acc_flags) if b}
+
+    def accepted(rule, prefix):
+        return (rule, prefix) in acc_set
 
     # ---- cases ----
     exh, scope, exh_full = gen_exhaustive(ctx)
     rev = gen_reverse(ctx)
+    exh_x, scope_x = gen_exhaustive_ext(ctx, accepted)
+    rev_x = gen_reverse_ext(ctx, accepted)
     book = []
+    skipped_lead = []
     for r in modelled:
+        smp = samples_of_text[r["row"]]
         for is_rev in (False, True):
             text = r["row"]
+            tsmp = smp
             if is_rev:
                 pre = r["prefix"] + " "
-                text = text[len(pre):] if text.startswith(pre) else pre + text
-            rows = synth_rows(text, rng, extra_first=[r["prefix"]])
+                if text.startswith(pre):
+                    text, tsmp = text[len(pre):], smp[1:]
+                else:
+                    text, tsmp = pre + text, [[r["prefix"]]] + smp
+            # the removal command of this text would start with a dropped `~/re/` word: outside the guard
+            tt = text.replace("(?i)", "").split(" ")
+            rt = tt[1:] if (tt[0] == r["prefix"] and len(tt) > 1) else [r["prefix"]] + tt
+            if rt[0].startswith("~/"):
+                skipped_lead.append(text)
+                continue
+            rows = synth_rows(text, rng, extra_first=[r["prefix"]], samples=tsmp)
             if is_rev:
-                rows += synth_rows(r["row"], rng)[:6]
+                rows += synth_rows(r["row"], rng, samples=smp)[:6]
             book.append({"kind": "book", "file": r["file"], "hw": r["hw"], "idx": r["idx"], "rev": is_rev,
                          "rule": r["row"], "prefix": r["prefix"],
                          # %ignore_case lives in the patching rule only: the reverse forms come from
                          # the ordering / ACL compilers, which never set the flag
                          "ic": r["ic"] and not is_rev,
                          "fkey": FKEY, "rows": rows, "src": "shipped-reverse" if is_rev else "shipped"})
-    cases = exh + rev + book
+    cases = exh + rev + exh_x + rev_x + book
     for c in cases:
         c["rows_list"] = materialise_rows(c)
 
@@ -387,17 +589,17 @@ def run(ctx):
         terms.append(f"({c_in(c, rule_expr, rows_expr)}, {c_out(o)})")
         live.append(i)
     preds = {
-        "agree": "fun c => out_eqb (model_C07 (fst c)) (snd c)",
-        "holds": "fun c => P_C07 (fst c) (snd c)",
-        "wf": "fun c => wf_C07 (fst c)",
+        "agree": "fun c => out_eqb (model_C07X (fst c)) (snd c)",
+        "holds": "fun c => P_C07X (fst c) (snd c)",
+        "wf": "fun c => wf_C07X (fst c)",
     }
-    res = core.run_case_files(ID, TY, IMPORTS, preds, terms, per_file=40 if ctx.thorough else 30,
+    res = core.run_case_files(ID, TY, IMPORTS, preds, terms, per_file=40,
                               extra_defs=extra_defs, timeout=1500)
     marks["coq_cases_s"] = round(time.time() - t0, 1)
     ctx.notes.append(f"cumulative phase times: {marks}")
     if res["wf"]:
         i = res["wf"][0]
-        raise core.CheckFailure(f"generator produced a case outside the guard wf_C07: {public(cases[i])}")
+        raise core.CheckFailure(f"generator produced a case outside the guard wf_C07X: {public(cases[i])}")
 
     # ---- reverse-row text (ACL / ordering form) and regex source text: compared in Coq ----
     rr_items = [(c, o) for c, o in zip(cases, outs)]
@@ -414,7 +616,7 @@ def run(ctx):
 
     src_items = sorted({(o.get("rule_text", c["rule"]), o["pattern"]) for c, o in zip(cases, outs)})
     src_out = core.coq_eval(ID, IMPORTS, [
-        "map (fun x => match rule_pat (fst x) with Some p => String.eqb (regex_src p) (snd x) | None => false end) "
+        "map (fun x => match xrule_pat (fst x) with Some p => String.eqb (xregex_src p) (snd x) | None => false end) "
         + clist(f"({cstr(a)}, {cstr(b)})" for a, b in src_items[k:k + CH]) for k in range(0, len(src_items), CH)],
         tag="regexsrc")
     src_flags = [b for chunk in src_out for b in parse_bools(chunk)]
@@ -422,48 +624,61 @@ def run(ctx):
 
     # ---- verdicts ----
     bad_holds = sorted(set(res["holds"]))
+    bad_agree = set(res["agree"])
     diag = {}
     if bad_holds:
-        # diagnose a selection that is diverse over the case families (at most 240 cases)
-        by_fam: dict[str, list[int]] = {}
-        for i in bad_holds:
-            by_fam.setdefault(cases[i]["src"], []).append(i)
-        pick = []
-        for k in range(max(len(v) for v in by_fam.values())):
-            for fam in sorted(by_fam):
-                if k < len(by_fam[fam]) and len(pick) < 240:
-                    pick.append(by_fam[fam][k])
+        # diagnose a selection that is diverse over the case families: first the cases where the
+        # implementation also differs from the model (at most 200), then cases where it agrees with the
+        # model (these can only be the documented peculiarities / the inline flag; at most 80)
+        def diverse(idx, limit):
+            by_fam: dict[str, list[int]] = {}
+            for i in idx:
+                by_fam.setdefault(cases[i]["src"], []).append(i)
+            pick = []
+            for k in range(max((len(v) for v in by_fam.values()), default=0)):
+                for fam in sorted(by_fam):
+                    if k < len(by_fam[fam]) and len(pick) < limit:
+                        pick.append(by_fam[fam][k])
+            return pick
+        pick = diverse([i for i in bad_holds if i in bad_agree], 200) + \
+            diverse([i for i in bad_holds if i not in bad_agree], 80)
         chunks = [pick[k:k + 40] for k in range(0, len(pick), 40)]
 
         def diag_chunk(job):
             k, chunk = job
             return core.coq_eval(ID, IMPORTS + "\n" + extra_defs,
-                                 [f"diag_C07 (fst {terms[i]}) (snd {terms[i]})" for i in chunk], tag=f"diag{k}")
+                                 [f"diag_C07X (fst {terms[i]}) (snd {terms[i]})" for i in chunk], tag=f"diag{k}")
         from concurrent.futures import ThreadPoolExecutor
         with ThreadPoolExecutor(max_workers=8) as ex:
             d_outs = list(ex.map(diag_chunk, enumerate(chunks)))
         for chunk, d_out in zip(chunks, d_outs):
             for i, txt in zip(chunk, d_out):
-                m = re.match(r"\(\s*(true|false)\s*,\s*\[(.*)\]\s*\)", txt, re.S)
-                if not m:
-                    raise core.CheckFailure(f"could not read diag_C07 output: {txt[:200]}")
-                rows_bad = [(int(a), b == "true") for a, b in re.findall(r"\((\d+)\s*,\s*(true|false)\)", m.group(2))]
-                diag[i] = (m.group(1) == "true", rows_bad)
+                try:
+                    ffmt_ok, model_ok, (qcap, qnb), rows_bad = parse_coq(txt)
+                except (ValueError, TypeError):
+                    raise core.CheckFailure(f"could not read diag_C07X output: {txt[:200]}")
+                diag[i] = (ffmt_ok, model_ok, qcap, qnb, [tuple(x) for x in rows_bad])
         if len(pick) < len(bad_holds):
-            ctx.notes.append(f"{len(bad_holds)} cases violate P_C07; {len(pick)} of them were diagnosed and reported")
+            ctx.notes.append(f"{len(bad_holds)} cases violate P_C07X; {len(pick)} of them were diagnosed and reported")
         bad_holds = sorted(pick)
     for i in bad_holds:
         c, o = cases[i], outs[i]
-        ffmt_ok, rows_bad = diag.get(i, (None, []))
+        ffmt_ok, model_ok, qcap, qnb, rows_bad = diag.get(i, (None, False, False, False, []))
         match_bad = [n for n, same in rows_bad if not same]
-        inline = "(?i)" in c["rule"]
-        if match_bad:
+        inline = "(?i)" in c["rule"] and "(?i)" in o["tmpl"]
+        fam = "shipped" if c["kind"] == "book" else "plain"
+        if model_ok and qcap and not inline:
+            # compile_row_regexp neutralises plain groups only when the row contains `*`
+            fam, kind = "ext", "bare-group-captures-without-placeholder"
+        elif model_ok and qnb and not inline:
+            # compile_row_regexp appends no trailing word boundary when the row contains `~/re/`
+            fam, kind = "ext", "tilde-re-row-lacks-word-boundary"
+        elif match_bad:
             kind = "match-differs"
         elif inline:
             kind = "reverse-template-keeps-inline-flag"
         else:
             kind = "removal-command-differs"
-        fam = "shipped" if c["kind"] == "book" else "plain"
         rows_l = c["rows_list"]
         witness = [{"row": rows_l[n], "impl": o["rows"][n]} for n, _ in rows_bad[:3]]
         ctx.add_violation(core.Violation(
@@ -527,7 +742,7 @@ def run(ctx):
         "cases": len(cases),
         "disagreements_checked": len(set(res["agree"])),
         "outcome_histogram": hist,
-        "input_distribution": dict(by_src, exhaustive_scope=scope),
+        "input_distribution": dict(by_src, exhaustive_scope=scope, exhaustive_ext_scope=scope_x),
         "exhaustive": bool(exh_full),
         "shipped_rule_lines": {
             "distinct_lines": len(shipped),
@@ -535,19 +750,23 @@ def run(ctx):
             "unmodelled": len(unmodelled),
             "per_file_distinct": per_file,
             "unmodelled_rows": unm_rows,
+            "modelled_only_by_extended_language": sorted({r["row"] for r in modelled if r["row"] not in plain_text}),
+            "skipped_removal_command_starts_with_dropped_word": sorted(set(skipped_lead)),
         },
         "regex_source_text_diagnostic": {
             "compared": len(src_items),
             "identical": None if src_diff is None else len(src_items) - len(src_diff),
             "different_examples": None if src_diff is None else [list(x) for x in src_diff[:10]],
-            "note": "regex_src p vs compile_row_regexp(...).pattern; informational, never a violation",
+            "note": "xregex_src p vs compile_row_regexp(...).pattern; informational, never a violation",
         },
     })
     ctx.assumptions += [
         "rows are wf_row: printable ASCII words separated by single spaces (what the vendor formatters' split/strip produce)",
         "CPython re is trusted to implement the textbook semantics of the supported regex subset "
         "(classes, sets, alternation, greedy * + ?), re.IGNORECASE on ASCII; checked by this correspondence only",
-        "rule rows outside the plain language (parse_pat = None) are excluded: see shipped_rule_lines.unmodelled_rows",
+        "rule rows outside the extended language (parse_xpat = None) are excluded: see shipped_rule_lines.unmodelled_rows",
+        "the predicate is evaluated with the extended-language definitions (P_C07X, model_C07X); on rule rows of the plain "
+        "language they coincide with P_C07 / model_C07 (theorem C07X_conservative)",
     ]
 
 
@@ -565,6 +784,6 @@ def replay(ctx, doc):
     cc = dict(c, rows=rows)
     rule_expr = f"(reverse_row {cstr(c['rule'])} {cstr(c['prefix'])})" if c.get("rev") else None
     term = f"({c_in(cc, rule_expr)}, {c_out(out)})"
-    res = core.run_case_files(ID, TY, IMPORTS, {"holds": "fun c => P_C07 (fst c) (snd c)"}, [term], tag="replay")
+    res = core.run_case_files(ID, TY, IMPORTS, {"holds": "fun c => P_C07X (fst c) (snd c)"}, [term], tag="replay")
     print("impl:", {k: out[k] for k in ("tmpl", "ffmt", "rows", "pattern")}, "holds:", not res["holds"])
     return 1 if res["holds"] else 0
